@@ -188,7 +188,11 @@ type world struct {
 	quiescent bool
 	isFork    bool
 	lastLow   uint64 // lowest durable floor seen at the previous observation (observation window)
-	broken    bool   // the scenario left the property's domain or the harness lost sync: stop comparing
+	// dirtyUpTo: blocks below it may have been half-pruned by a prune that was interrupted by a crash or a
+	// write error (its target was at most the allowed floor of that moment); only a prune that completes at or
+	// above it sweeps them. 0 = nothing pending.
+	dirtyUpTo uint64
+	broken    bool // the scenario left the property's domain or the harness lost sync: stop comparing
 }
 
 func (w *world) legacy() bool { return !w.ch.newState }
@@ -509,6 +513,7 @@ func (w *world) event(kind string, n, ts uint64, plan prunePlan) eventResult {
 			res.Failed = true
 			modelFinal = w.ask("fail")
 			w.situation = "after-failed-write"
+			w.dirtyUpTo = max(w.dirtyUpTo, w.fspec)
 			w.res.Hit("interrupt:commit-failure")
 			return fmt.Errorf("injected commit failure at batch %d", wi.Seq)
 		}
@@ -530,7 +535,9 @@ func (w *world) event(kind string, n, ts uint64, plan prunePlan) eventResult {
 		}
 		w.res.Compared(1)
 		if plan.Observe {
-			w.situation = "mid-prune"
+			if prevSituation == "steady" {
+				w.situation = "mid-prune"
+			}
 			w.observe()
 			w.situation = prevSituation
 		}
@@ -587,18 +594,27 @@ func (w *world) event(kind string, n, ts uint64, plan prunePlan) eventResult {
 	res.Outcome = impl
 	w.quiescent = true
 	switch {
-	case res.Cancelled:
-		w.situation = "after-cancel"
 	case res.Failed:
 		w.situation = "after-failed-write"
+	case res.Cancelled:
+		if w.dirtyUpTo == 0 {
+			w.situation = "after-cancel"
+		}
 	case strings.HasPrefix(impl, "done") && res.Writes > 0:
-		w.situation = "steady" // a completed prune sweeps whatever an interrupted one left behind
+		// a completed prune sweeps what an interrupted one left behind — if it reaches that far
+		var cnt, oldestKept uint64
+		fmt.Sscanf(impl, "done %d %d", &cnt, &oldestKept)
+		if oldestKept >= w.dirtyUpTo {
+			w.situation, w.dirtyUpTo = "steady", 0
+		}
 	}
 	w.res.Hit("event-outcome:" + strings.Fields(impl)[0])
 	if res.Cancelled {
 		// Run has returned; the node shuts down and comes back
 		w.restart("after-cancel")
-		w.situation = "after-cancel"
+		if w.dirtyUpTo == 0 {
+			w.situation = "after-cancel"
+		}
 	}
 	return res
 }
@@ -609,7 +625,7 @@ func (w *world) event(kind string, n, ts uint64, plan prunePlan) eventResult {
 func (w *world) fork(kind string, n, ts uint64, seq int) {
 	f := &world{res: w.res, ch: w.ch, name: w.name, spec: w.spec, drv: w.fdrv, fixed: w.fixed, pcfg: w.pcfg,
 		height: w.height, l1: w.l1, fspec: w.fspec, cutoff: w.cutoff, isFork: true,
-		situation: "after-crash-mid-prune", quiescent: true}
+		situation: "after-crash-mid-prune", quiescent: true, dirtyUpTo: max(w.dirtyUpTo, w.fspec), lastLow: w.lastLow}
 	f.ops = append(append([]opRec{}, w.ops...), opRec{Op: "crash-image", N: uint64(seq), Note: "kill -9 right after this batch write of the prune above; continue on the image"})
 	f.nodeDB = w.nodeDB.Copy()
 	f.shadowDB = w.shadowDB.Copy()
